@@ -247,8 +247,13 @@ def run(pid, tier, seed, res, drv, replay=None, replay_path=None):
         scs = scenarios(pid, tier, seed)
     res.rule = ("corpus of once-failing scenarios, targeted families of %s, random scheduler trees (depth <= 3, 1-12 jobs, "
                 "windows, timeouts, forever / never-ending / raising jobs, cancellation and shutdown handlers of 0-3 quanta, "
-                "AbstractJob subclasses and coroutine Jobs, verbose on/off, chosen set orders) run on the real library with a "
-                "virtual clock; non-trivial = %s; distinct by (tree shape, flags, behaviour classes)"
+                "AbstractJob subclasses, coroutine Jobs and the library's PrintJob, verbose on/off, chosen set orders, jobs that "
+                "inspect the schedulers from inside the run, exceptions with empty messages) run on the real library with a "
+                "virtual clock; per property also: second runs of the same objects (plain, and edited in between: attributes, "
+                "jobs added, requirements added/removed, inspection calls, explicit shutdown, a nested scheduler run alone "
+                "first), graphs inspected then edited then run, top-level runs cancelled from outside (oracles only), the "
+                "corpus under python 3.11 (see input_distribution.source); non-trivial = %s; distinct by (tree shape, "
+                "flags, behaviour classes)"
                 % (pid, RULES.get(pid, "at least two jobs")))
     nproc = 1 if (tier == "quick" or replay) else min(14, os.cpu_count() or 1)
     results = []
